@@ -69,6 +69,15 @@ func (fr *Frame) exec(in ssa.Instruction, st *State, g string) {
 		fr.unop(x, st, g)
 	case *ssa.Call:
 		res := fr.call(x, x.Common(), st, g)
+		if fr.top && fr.spec != nil && len(fr.spec.Hints) > 0 {
+			ck := ""
+			if x.Common().IsInvoke() {
+				ck = "." + x.Common().Method.Name()
+			} else if sc := x.Common().StaticCallee(); sc != nil {
+				ck = funcKey(sc)
+			}
+			fr.applyHints("after", ck, x.Block(), st, g, nil)
+		}
 		if x.Type() != nil {
 			if tup, ok := x.Type().(*types.Tuple); ok {
 				if tup.Len() > 0 {
@@ -321,7 +330,7 @@ func (fr *Frame) binop(x *ssa.BinOp, st *State, g string) {
 				fr.freshVal(x, st, g)
 				return
 			}
-			r = eq(a.t, b.t)
+			r = tc.deepEq(a.t, b.t, x.X.Type())
 		}
 		if x.Op == token.NEQ {
 			r = not(r)
@@ -685,6 +694,7 @@ func (fr *Frame) ret(x *ssa.Return, st *State, g string) {
 		if len(fr.spec.PanicsWhen) > 0 {
 			fc.oblige(fr, "panic-iff", "", g, not(or(fr.panicsWhenOld...)), x.Pos(), "normal return only outside the documented panic condition", fr.props())
 		}
+		fr.applyHints("return", "", x.Block(), st, g, res)
 		env := fr.specEnv(st, fr.entry)
 		fr.bindResults(env, res)
 		for i, cl := range fr.spec.Ensures {
@@ -705,6 +715,41 @@ func (fr *Frame) ret(x *ssa.Return, st *State, g string) {
 		}
 	}
 	fc.cover(fmt.Sprintf("return@%d", x.Block().Index), g)
+}
+
+// applyHints checks and then assumes the intermediate assertions of the contract at this program point.
+func (fr *Frame) applyHints(where, calleeKey string, b *ssa.BasicBlock, st *State, g string, res []SV) {
+	if !fr.top || fr.spec == nil || len(fr.spec.Hints) == 0 {
+		return
+	}
+	fc := fr.fc
+	for i, h := range fr.spec.Hints {
+		if h.Where != where {
+			continue
+		}
+		if where == "after" && !(strings.HasSuffix(calleeKey, "."+h.Callee) || strings.HasSuffix(calleeKey, ")."+h.Callee) || calleeKey == h.Callee) {
+			continue
+		}
+		fr.localsSameBlock = true
+		locals, addrs := fr.localsAt(b, -1)
+		fr.localsSameBlock = false
+		fr.curLocals, fr.curLocalAddrs = locals, addrs
+		env := fr.specEnv(st, fr.entry)
+		if res != nil {
+			fr.bindResults(env, res)
+		}
+		t, err := env.evalBool(h.Clause.E)
+		fr.curLocals, fr.curLocalAddrs = nil, nil
+		if err != nil {
+			fc.eng.stale(fr.spec, h.Clause, err)
+			continue
+		}
+		label := h.Clause.Label
+		if label == "" {
+			label = fmt.Sprint(i)
+		}
+		fc.oblige(fr, "hint", label, g, t, token.NoPos, h.Clause.Text, fr.props())
+	}
 }
 
 func (fr *Frame) bindResults(env *SpecEnv, res []SV) {
@@ -810,7 +855,7 @@ func (fr *Frame) localsAt(h *ssa.BasicBlock, pidx int) (map[string]func(*State) 
 			if !ok {
 				continue
 			}
-			if b == h {
+			if b == h && !fr.localsSameBlock {
 				// only refs before the first non-phi use are safe; skip refs inside the header body
 				if _, isPhi := d.X.(*ssa.Phi); !isPhi {
 					if vb := valueBlock(d.X); vb == h {
